@@ -67,6 +67,10 @@ claimed = {
    'Seeded deterministic simulation of transfers with the tunnel offered (real listener/accept/authenticate code over an in-memory network with per-host ports, real client connector path, optional relay hop) while 0-3 attacker tasks connect at tape-chosen times with unrelated text, a greeting for another id, a truncated greeting, the greeting plus one byte, the greeting split across two writes, nothing, a flood of protocol-looking lines, or the right greeting after the genuine connection is in place; the genuine connector succeeds, refuses, returns late (1.1-3.1 s), returns a dead connection, or the server cannot listen; fail lines are injected in-band in both directions once the tunnel carries traffic. Oracles: the transfer succeeds with identical files in every case (so nothing from non-adopted connections or in-band reached it), a connection without the exact greeting receives nothing and is closed, a second correct greeting gets no transfer traffic, no more connections carry protocol traffic than there are tunnel hops. Sensitivity: HasPrefix instead of equality is caught.',
    'Whoever presents the exact greeting first is by definition the genuine party (the greeting is the secret); same-tree peers.',
    'deterministic simulation with attacker tasks on a simulated network, seeded arrival orders and schedules', '§4 C17'),
+ 'C19': ('exploration',
+   'Seeded deterministic simulation of the real filter with zmodem enabled between a scripted remote rz/sz and a scripted local helper behind the os/exec substitute: helper behaviours (normal, exits non-zero, exits at once, never writes, writes late, missing from PATH) x server behaviours (finishes, cancels before/after the helper starts, keeps sending, goes quiet) x upload with/without files and download x Ctrl-C early/late x headers accompanied by a cancel sequence or "cannot open"; the 100 ms start delay, 500 ms quiet timer and 20 s timeouts run on the fake clock. Oracles: matching helper and working directory, started at most once, traffic bridged both ways, server told to cancel whenever the session did not complete, a silent helper cancelled or killed, vetoed headers start nothing and are shown unmodified, and 26 s later typed input reaches the server and a printed probe reaches the terminal.',
+   'The start header arrives within one read (the detector works per read). The helper is a scripted stand-in, not lrzsz.',
+   'deterministic simulation with scripted child process and remote peer, fake-clock timers, seeded schedules', '§4 C19'),
 }
 pending_reason = 'check not built yet in this session (deterministic simulation planned, see DESIGN.md §4); not claimed'
 checks = []
